@@ -7,7 +7,7 @@
    All comparisons happen here, on exact rationals. *)
 From Coq Require Import QArith Qabs.
 From EsVerif.Common Require Import Base.
-From EsVerif.C18 Require Import Model Spec.
+From EsVerif.C18 Require Import Model Spec SpecStrict.
 Open Scope Q_scope.
 
 Definition skip : Z := (-1)%Z.
@@ -120,9 +120,15 @@ Definition v_sigma_clip (x : list Q) (w : option (list Q)) (niter : Z) (nsig : Q
   match out with
   | Ok (m, s, e, idx) =>
       if wf then
-        let c := sigma_clip_check (sc_weighted w) nsig (Z.to_nat niter)
-                                  (index_from 0%Z x (sc_weights x w)) m s e idx in
-        verdict c c
+        (* c: the implementation's output is what the code-faithful model computes (Spec.sigma_clip_check:
+           three stop rules).  The checker of the clause AS STATED is SpecStrict.sigma_clip_strict_check
+           = c && negb kf (definitionally); a case it rejects only because the code took its
+           "everything clipped" exit gets the distinguished verdict 12 = 0 (model agrees) + 2 (checker
+           rejects) + 10 (class C18.kf_everything_clipped). *)
+        let all := index_from 0%Z x (sc_weights x w) in
+        let c := sigma_clip_check (sc_weighted w) nsig (Z.to_nat niter) all m s e idx in
+        if c then (if kf_everything_clipped (sc_weighted w) nsig (Z.to_nat niter) all then 12%Z else 0%Z)
+        else 3%Z
       else match sigma_clip (V1 x) (opt_v1 w) niter nsig with Ok _ => 1%Z | Err _ => 1%Z end
   | Err e' =>
       match sigma_clip (V1 x) (opt_v1 w) niter nsig with
